@@ -34,7 +34,7 @@ ASSUMPTIONS = ["reference model table is the oracle"]
 REQUIRED_PROBES = ["three_component_patch0", "three_component", "four_component", "garbage_report", "second_report",
                    "report_via_presentation", "report_via_version_reply", "unsupported_internal", "supported_internal",
                    "unsupported_stream", "downgrade_report"]
-ASPECTS = ("version", "outcome")
+ASPECTS = ("version", "outcome", "writes.pres", "writes.reaction")
 
 MAJORS = [0, 1, 2, 3, 10]
 MINORS = [0, 1, 2, 3, 4, 5, 6, 9, 10]
@@ -108,8 +108,11 @@ def _gen(seed: int, i: int, tier: str) -> dict:
                 ops.append(["line", f"1;255;3;0;{t};{'5' if t in (0, 22) else '2.0' if t == 2 else ''}\n"])
             elif r2 < 0.5:
                 ops.append(["line", f"1;255;4;0;{rng.randint(-1, 8)};ab\n"])
-            elif r2 < 0.7:
+            elif r2 < 0.6:
                 ops.append(["line", "0;255;3;0;14;Gateway startup complete.\n"])
+            elif r2 < 0.7:
+                # report types that exist from 2.0 / 2.2 on, from a node that never presented itself
+                ops.append(["line", f"77;255;3;0;{rng.choice([21, 22, 32])};5\n"])
             elif r2 < 0.77:
                 ops.append(["relisten"])
             elif r2 < 0.8:
@@ -129,7 +132,7 @@ def gen(seed: int, i: int, tier: str) -> dict:
 def run(scn):
     if scn.get("kind") == "universe":
         from vsim.universe import run_universe
-        return run_universe(scn, PROP, ASPECTS, keep=lambda aspect, site: aspect == "version" or "UnsupportedMessageError" in site)
+        return run_universe(scn, PROP, ASPECTS, keep=lambda aspect, site: aspect in ("version", "outcome", "writes.pres") or (aspect == "writes.reaction" and "type14" in site))
     st = {"reports": 0, "prev_proto": None}
 
     def on_step(i, op, obs, disc, model, w, res):
@@ -167,7 +170,9 @@ def run(scn):
 
     def keep(aspect, site):
         # C05 owns the version state and the type gate only
-        return aspect == "version" or "UnsupportedMessageError" in site
+        # (the rules in force also show in what the probes do: discover broadcast on gateway-ready from 2.0 on,
+        #  missing-node handling of 2.x-only report types, presentation requests only under 2.x)
+        return aspect in ("version", "outcome", "writes.pres") or (aspect == "writes.reaction" and "type14" in site)
 
     res = execute(scn, PROP, ASPECTS, on_step=on_step, keep=keep)
     if st["reports"]:
